@@ -348,8 +348,11 @@ def main(argv=None):
         "wall_s": round(wall, 2),
         "violations": len(violations),
     }
-    os.makedirs(os.path.join(VERIF, "evidence"), exist_ok=True)
-    json.dump(ev, open(os.path.join(VERIF, "evidence", prop + ".json"), "w"), indent=1)
+    # evidence describes runs against /repo only: a run against a scratch tree (LASIO_REPO, used for the
+    # seeded changes) writes its record next to that tree instead
+    evdir = os.path.join(VERIF, "evidence") if os.path.realpath(REPO) == "/repo" else os.path.join(REPO, "_seed", "evidence")
+    os.makedirs(evdir, exist_ok=True)
+    json.dump(ev, open(os.path.join(evdir, prop + ".json"), "w"), indent=1)
 
     print("%s tier=%s tasks=%d paths=%d queries=%d (sat %d / unsat %d) solver=%.1fs obligations=%d discharged=%d candidates=%d xchecked=%d wall=%.1fs"
           % (prop, a.tier, len(tasks), st["paths"], st["queries"], st["sat"], st["unsat"], st["solver_s"], st["obligations"], st["discharged"], st["candidates"], xcheck, wall))
